@@ -90,6 +90,9 @@ Definition handle_response_gen (keep check_last : bool) (ct : content) (slot : N
         match r with
         | RShred b slice index =>
           if negb (slot_ok && (b_slice s =? slice) && (b_index s =? index)) then ignore
+          (* current tree ("fix: do not blame the leader for a shred whose type contradicts its index"): the
+             blockstore would refuse such a shred, the request stays outstanding *)
+          else if negb (shred_tag_ok s) then ignore
           (* current tree ("fix: reject repaired shreds whose last-slice flag contradicts the proven slice count") *)
           else if check_last && negb (Bool.eqb (b_last s) (is_last_slice rp b slice)) then ignore
           else match root_lookup (b, slice) (rp_roots rp) with
@@ -168,7 +171,8 @@ Definition answer (sd : slotdata) (key_hash : N -> blockhash) (r : rreq) : ransw
 
 (* ---- specification vocabulary (used by the theorems in Props/C14.v) ---- *)
 (* a response the requester's checks reject: unsolicited, wrong variant, failing proof, wrong header
-   indices, a slice root other than the proven one, or a bad signature / Merkle path *)
+   indices, a data / coding type contradicting the shred index, a slice root other than the proven one, or a
+   bad signature / Merkle path *)
 Definition rejected (rp : repair) (p : rresp) : bool :=
   let r := resp_req p in
   negb (has_req rp r) ||
@@ -178,6 +182,7 @@ Definition rejected (rp : repair) (p : rresp) : bool :=
   | PRoot _ _ ok, RRoot _ _ => negb ok
   | PShred _ slot_ok s sig_ok, RShred b slice index =>
     negb (slot_ok && (b_slice s =? slice) && (b_index s =? index))
+    || negb (shred_tag_ok s)
     || negb (Bool.eqb (b_last s) (is_last_slice rp b slice))
     || match root_lookup (b, slice) (rp_roots rp) with
        | Some root => negb (b_root s =? root) || negb sig_ok
